@@ -367,9 +367,25 @@ async def _run_str(case, exact):
     for nme in names:
         chan = reg.get_or_create(I["Sample"][I["Quantity"]], I["CMR"]("ns", int(nme), I["MID"], None).get_channel_name())
         senders[nme] = chan.new_sender()
-    out = await _pump(rx, senders, names, case["rows"], exact, case.get("pre_rows"), [{k.lstrip("#") for k, _ in fetch}], case.get("stall"))
+    ends = case.get("ends")
+    chan_of = {nme: reg.get_or_create(I["Sample"][I["Quantity"]], I["CMR"]("ns", int(nme), I["MID"], None).get_channel_name()) for nme in names}
+
+    async def on_row(k):
+        if ends and k == ends[1] and ends[0] in senders:
+            senders.pop(ends[0])            # this input delivers nothing from now on ...
+            await chan_of[ends[0]].close()  # ... its stream has ended
+        if case.get("lost") and k == 0:
+            senders["__lost"] = senders.pop(case["lost"])     # the sample of row 0 is lost on this stream
+        if case.get("lost") and k == 1:
+            senders[case["lost"]] = senders.pop("__lost")
+
+    out = await _pump(rx, senders, names, case["rows"], exact, case.get("pre_rows"), [{k.lstrip("#") for k, _ in fetch}], case.get("stall"),
+                      False, None, on_row if (ends or case.get("lost")) else None)
     await _cleanup([eng])
-    return {"steps": steps, "fetchers": fetch, "out": out}
+    obs = {"steps": steps, "fetchers": fetch, "out": out}
+    if ends and 0 < ends[1] < len(case["rows"]) and ends[0] in {k.lstrip("#") for k, _ in fetch}:
+        obs.update({"ended_at": ends[1], "out": out[:ends[1]], "tail": out[ends[1]:len(case["rows"])]})
+    return obs
 
 
 def _const(op, v, exact):
@@ -514,7 +530,12 @@ async def _run_ho(case, exact):
             stops.setdefault(k, []).append(i)
     stopped = []
 
+    ends = case.get("ends") if not (case.get("stall") or stops) else None
+
     async def on_row(k):
+        if ends and k == ends[1] and ends[0] in senders:
+            senders.pop(ends[0])
+            await chans[ends[0]].close()
         for i in stops.get(k, []):
             if live[i] is not None:
                 await live[i]._stop()  # pylint: disable=protected-access
@@ -526,9 +547,11 @@ async def _run_ho(case, exact):
             gc.collect()
 
     outs = await _pump(rxs, senders, names, case["rows"], exact, case.get("pre_rows"), needs, case.get("stall"),
-                       False, case.get("zones"), on_row if stops else None)
-    for d, o in zip(descr, outs):
+                       False, case.get("zones"), on_row if (stops or ends) else None)
+    for d, o, need in zip(descr, outs, needs):
         d["out"] = o[:d["stopped_at"]] if "stopped_at" in d else o
+        if ends and 0 < ends[1] < len(case["rows"]) and ends[0] in need:
+            d.update({"ended_at": ends[1], "out": o[:ends[1]], "tail": o[ends[1]:len(case["rows"])]})
     await _cleanup([e for e in live if e is not None] + list(engines.values()))
     main = descr[-1]
     return {"steps": main["steps"], "fetchers": main["fetchers"], "out": main["out"], "tokens": tokens, "builds": descr}
@@ -562,7 +585,7 @@ async def _run_ho3(case, exact):
     rx = eng.new_receiver()
     senders = {nm: chans[nm].new_sender() for nm in names}
     await asyncio.sleep(0)
-    out = await _pump(rx, senders, names, case["rows"], exact, None, None, None, True)
+    out = await _pump(rx, senders, names, case["rows"], exact, case.get("pre_rows"), None, None, True)
     for ph in range(3):
         phases[ph]["out"] = [(o["p"][ph] if isinstance(o, dict) else o) for o in out]
     await _cleanup([eng] + list(eng._streams) + list(singles.values()))  # pylint: disable=protected-access
@@ -585,6 +608,15 @@ def term_ho3(case, obs):
     return "[" + "; ".join(out) + "]"
 
 
+PHASE_OFFSETS = [(a, b, c) for a in range(3) for b in range(3) for c in range(3) if min(a, b, c) == 0]
+
+
+def phase_pre_rows(rng, names, offs):
+    """the inputs of phase p start offs[p] samples before row 0 (gap-free): the per-phase engines emit
+    their first samples at different timestamps and the 3-phase engine has to align them"""
+    return [{n: gen_value(rng, 0.3) for n in names if offs[int(n.split(":")[1])] >= -k} for k in range(-max(offs), 0)]
+
+
 def gen_ho3_case(rng):
     ids = rng.sample([0, 1, 2, 3], rng.randint(1, 3))
 
@@ -601,9 +633,12 @@ def gen_ho3_case(rng):
         return ["b", base, op, tree(rng.randint(0, d - 1))]
     t = tree(rng.randint(1, 3))
     names = [f"{n}:{ph}" for n in sorted(hb_names(t)) for ph in range(3)]
-    return {"kind": "ho3", "tree": t, "nz": rng.random() < 0.5, "share": rng.random() < 0.3,
+    case = {"kind": "ho3", "tree": t, "nz": rng.random() < 0.5, "share": rng.random() < 0.3,
             "src_nz": {str(n): rng.random() < 0.2 for n in sorted(hb_names(t))},
             "rows": gen_rows(rng, names, rng.randint(2, 3), rng.choice([0.0, 0.2, 0.4]))}
+    if rng.random() < 0.5:
+        case["pre_rows"] = phase_pre_rows(rng, names, rng.choice(PHASE_OFFSETS))
+    return case
 
 
 async def _run_raw(case, exact):
@@ -865,8 +900,12 @@ def run_both(case):
     if "error" not in obs:
         fl = run_case(case, exact=False)
         obs["float_out"] = fl.get("out")
+        if "tail" in fl:
+            obs["float_tail"] = fl["tail"]
         for b, fb in zip(obs.get("builds", []), fl.get("builds", [])):
             b["float_out"] = fb.get("out")
+            if "tail" in fb:
+                b["float_tail"] = fb["tail"]
         for b, fb in zip(obs.get("requests", []), fl.get("requests", [])):
             b["float_out"] = fb.get("out")
         for b, fb in zip(obs.get("composed", []), fl.get("composed", [])):
@@ -1079,6 +1118,24 @@ def finite_or_none(r):
             return None
         return F(r)
     return r
+
+
+def cut_case(case, b):
+    """rows an engine is judged on: all, or those before it was stopped / before one of its inputs ended"""
+    n = b.get("stopped_at", b.get("ended_at"))
+    return case if n is None else {**case, "rows": case["rows"][:n]}
+
+
+def tail_violations(b, who=""):
+    """after one of its inputs has ended an engine must not emit anything: a sample for a timestamp for
+    which some input delivered nothing would be computed from a stale value"""
+    out = []
+    for k, g in enumerate(b.get("tail", [])):
+        for tag, x in (("exact", g), ("float", (b.get("float_tail") or [])[k] if k < len(b.get("float_tail") or []) else "dropped")):
+            if x != "dropped":
+                out.append({"what": f"sample-after-input-ended: {who}a sample {x} was emitted for timestamp {b['ended_at'] + k} although an input stream had ended before it ({tag} run)", "finding": None})
+                return out
+    return out
 
 
 def judge_rows(case, obs, ref_fn, out):
@@ -1320,7 +1377,10 @@ def term_str(case, obs):
     oe = f"(Some {c_expr(case['ast'])})" if "ast" in case else "None"
     if "error" in obs:
         return f"({cs}, {cbool(case['nz'])}, {oe}, None, [])"
-    rows = c_rows(case, obs)
+    if case.get("lost"):       # the start-up rounds of a stream that lost its first common sample are not judged
+        rows = c_rows({"rows": case["rows"][2:]}, {**obs, "out": obs["out"][2:]})
+    else:
+        rows = c_rows(cut_case(case, obs), obs)
     if rows is None:
         return f"({cs}, {cbool(case['nz'])}, {oe}, Some ([SOpen; SOpen; SOpen], []), [])"   # malformed observation: force a mismatch
     return f"({cs}, {cbool(case['nz'])}, {oe}, Some {c_prog(obs)}, {rows})"
@@ -1331,7 +1391,7 @@ def term_ho(case, obs):
     src = "[" + "; ".join(f"({c_N(k)}, {cbool(z)})" for k, z in sorted(case.get("src_nz", {}).items(), key=lambda kv: int(kv[0]))) + "]"
     out = []
     for b in obs.get("builds") or [{"tree": case["tree"], "nz": case["nz"], **obs}]:
-        rows = c_rows({"rows": case["rows"][:b["stopped_at"]]} if "stopped_at" in b else case, b)
+        rows = c_rows(cut_case(case, b), b)
         if rows is None:
             out.append(f"({c_hb(b['tree'])}, {cbool(b['nz'])}, {src}, ([SOpen; SOpen; SOpen], []), [])")
         else:
